@@ -904,6 +904,11 @@ class _CopyFromZipFileExecutor:
         return f"{type(self).__name__}({self.root} -> {self.job})"
 
 
+def _is_in_directory(name, directory):
+    """Return True if name is the directory or located below it, comparing path components."""
+    return not directory or name == directory or name.startswith(directory + "/")
+
+
 def _analyze_zipfile_for_import(zipfile, project, schema):
     """Validate paths in zipfile.
 
@@ -976,7 +981,7 @@ def _analyze_zipfile_for_import(zipfile, project, schema):
     for name in sorted(dirs):
         cont = False
         for skip in skip_subdirs:
-            if name.startswith(skip):
+            if _is_in_directory(name, skip):
                 cont = True
                 break
         if cont:
@@ -997,7 +1002,7 @@ def _analyze_zipfile_for_import(zipfile, project, schema):
         )
 
     for src, job in mappings.items():
-        _names = [name for name in names if name.startswith(src)]
+        _names = [name for name in names if _is_in_directory(name, src)]
         copy_executor = _CopyFromZipFileExecutor(zipfile, src, job, _names)
         yield src, copy_executor
 
